@@ -355,6 +355,73 @@ def _one_history(rng, res, DrawSet):
     return (mids > 0 and empt > 0), digest([kind, u, ops]), {"universe": u, "style": style, "ops": ops}
 
 
+def _large_history(rng, res, DrawSet):
+    """one long-lived set that grows past a thousand members and is then shrunk to a fraction of its peak by removals in arbitrary
+    (not last-in-first-out) order, with re-insertions and repeated removals on the way: what a set does when it is many times smaller
+    than it once was (compaction, rebuilds, released tables) is part of its history"""
+    n = rng.randint(1050, 1700)
+    kind = rng.choice(["int", "edge"])
+    u = list(range(n)) if kind == "int" else [(i // 40, 40 + i % 40 + i // 40) for i in range(n)]
+    D = sut("DrawSet()", DrawSet)
+    M = set()
+    tap = RandomTap(seed=rng.randrange(1 << 30), keep_log=False)
+
+    def look(after):
+        if sut("len", len, D) != len(M):
+            res.violate("len-differs", after=after, got=len(D), model=len(M), history="large"); return False
+        items = sut("iter", list, D)
+        if len(items) != len(M) or set(items) != M:
+            res.violate("iteration-differs", after=after, got=len(items), model=len(M), history="large"); return False
+        for x in u:
+            if bool(sut("contains", lambda: _clone(x) in D)) != (x in M):
+                res.violate("membership-differs", after=after, element=x, got=(x not in M), history="large: %d members at the peak, %d now" % (n, len(M))); return False
+        return True
+
+    with installed(tap, "drawset"):
+        for x in u:
+            sut("add", D.add, x); M.add(x)
+        res.count("ops", n)
+        if not look("filled to %d" % n):
+            return False
+        order = list(u)
+        rng.shuffle(order)
+        target = rng.choice([n // 3, n // 5, n // 9, 40, 3])
+        removed = []
+        for step, x in enumerate(order):
+            if len(M) <= target:
+                break
+            sut("remove", D.remove, _clone(x)); M.discard(x); removed.append(x)
+            res.count("ops"); res.count("remove_present")
+            if step % 97 == 0:
+                # a removed element is removed again (must raise), re-inserted and removed once more; one draw
+                y = rng.choice(removed)
+                if y not in M:
+                    try:
+                        D.remove(_clone(y))
+                        res.violate("remove-absent-did-not-raise", element=y, history="large"); return False
+                    except MonitorAlarm:
+                        raise
+                    except Exception:
+                        res.count("remove_absent_raised")
+                    sut("add", D.add, _clone(y)); M.add(y)
+                    if len(D) != len(M):
+                        res.violate("len-differs", after="re-insertion of a removed element", got=len(D), model=len(M), element=y, history="large"); return False
+                    sut("remove", D.remove, _clone(y)); M.discard(y)
+                d = sut("draw", D.draw); res.count("draws")
+                if d not in M:
+                    res.violate("draw-returned-non-member", got=d, history="large"); return False
+            if step in (n // 2, (3 * n) // 4, (7 * n) // 8) and not look("%d removals" % (step + 1)):
+                return False
+        if not look("shrunk to %d of %d" % (len(M), n)):
+            return False
+        for x in rng.sample(removed, min(len(removed), 200)):
+            sut("add", D.add, _clone(x)); M.add(x)
+        if not look("200 removed members re-inserted"):
+            return False
+    res.count("large_histories_grown_past_1000_and_shrunk")
+    return True
+
+
 def run_case(case):
     import gcmpy.tools.draw_set as ds
     if case.get("kind") == "repo-tests":
@@ -371,6 +438,10 @@ def run_case(case):
     nontriv = 0
     first_sample = None
     digs = []
+    if not _large_history(rng, res, ds.DrawSet):
+        res.nontrivial = True
+        res.digest = digest([case["seed"], case["count"]])
+        return res
     for i in range(case["count"]):
         out = _one_history(rng, res, ds.DrawSet)
         if out is None:
